@@ -10,6 +10,7 @@ from ..astx import self_attr, walk_no_nested, dotted, call_name, parent, dominat
     func_params, terminates, ancestors
 from ..core import norm, Inconclusive
 from .. import nodeshape
+from .. import pat
 
 TREE = "graphtage.tree.TreeNode"
 
@@ -149,6 +150,35 @@ def r02c(ctx):
         else:
             ctx.proved("R02c", f.file, "levenshtein_distance", r, "return",
                        f"`{norm(r)}` is indexed by the table dimensions")
+
+
+def r02c2(ctx):
+    m = ctx.model
+    ctx.rule("R02c", "levenshtein_distance returns the table cell indexed by the table's dimensions, not by loop-carried "
+                     "variables of loops that may run zero times")
+    f = m.func("graphtage.levenshtein.levenshtein_distance")
+    tb = pat.first("D = [[0] * C for ANY in range(R)]", f.node)[1] or pat.first("D = [[0] * C for X in range(R)]", f.node)[1]
+    if tb is None:
+        ctx.inconclusive("R02c", f.file, "levenshtein_distance", f.node, "table", "distance table construction not recognised")
+        return
+    D, C, R = tb["D"], tb["C"], tb["R"]
+    col0 = pat.first(f"for I in range(1, {R}):\n    {D}[I][0] = I", f.node)[0]
+    row0 = pat.first(f"for J in range(1, {C}):\n    {D}[0][J] = J", f.node)[0]
+    for got, what, dim in ((col0, "first column", R), (row0, "first row", C)):
+        if got is not None:
+            ctx.proved("R02c", f.file, "levenshtein_distance", got, f"border {what}", f"the {what} is initialised to 1..{dim}-1 over its full length")
+        else:
+            ctx.violation("R02c", f.file, "levenshtein_distance", f.node, f"border {what}",
+                          f"the {what} of the distance table is not initialised as `for i in range(1, {dim}): {D}[..] = i` over its "
+                          f"full length: cells left at 0 make deleting/inserting a whole suffix free, so two different scalars "
+                          f"(e.g. 100 vs 0) get cost 0")
+    # recurrence reads the three neighbours
+    rec = pat.first(f"{D}[I][J] = min({D}[I - 1][J] + 1, {D}[I][J - 1] + 1, {D}[I - 1][J - 1] + K)", f.node)[0]
+    if rec is not None:
+        ctx.proved("R02c", f.file, "levenshtein_distance", rec, "recurrence", "each cell is the minimum over delete / insert / substitute")
+    else:
+        ctx.violation("R02c", f.file, "levenshtein_distance", f.node, "recurrence",
+                      "the cell recurrence is no longer min(up + 1, left + 1, diagonal + substitution cost)")
 
 
 def r02d(ctx):
@@ -320,8 +350,13 @@ def run(ctx):
     r02a(ctx, trimmed_pair_lists(m))
     r02b(ctx)
     r02c(ctx)
+    r02c2(ctx)
     r02d(ctx)
     r02e(ctx)
     r02f(ctx)
+    from . import c14
+    from .. import cli
+    f, specs, groups = cli.parse_cli(m)
+    c14.r14d(ctx, f, specs)     # the command compares the two trees it loaded (no CLI-only substitution or transformation)
     ctx.assume("positivity of a computed non-zero cost for arbitrary unequal values (numeric) is not decided beyond the "
                "structural clauses above")
